@@ -45,7 +45,7 @@ def overloads(prog):
 
 
 def gaps_for(tier, seed_rng):
-    mandatory = list(range(0, 46)) + [589, 590, 591]
+    mandatory = list(range(0, 46)) + [589, 590, 591] + [255, 256, 257, 275, 276, 511, 512, 513, 1023, 1024, 1025]   # + narrowing-cast boundaries
     if tier == 'quick':
         return mandatory + sorted(seed_rng.sample(range(46, 10001), 2))
     extra = [1000, 4999, 5000, 9999, 10000] + sorted(seed_rng.sample(range(46, 10001), 50))
